@@ -26,6 +26,36 @@ EXPLANATION = (
 ASSUMPTIONS = ["tokio::sync::Semaphore permits are released when the OwnedSemaphorePermit is dropped", "catch_unwind catches handler panics (panic=unwind)"]
 
 
+def _keeps_reading(facts, vtxt):
+    """the value spawn_off_reader returns is an enum variant on which reader_task goes on to read the next frame"""
+    import re
+    m = re.match(r"^([A-Za-z_][\w:]*)::([A-Za-z_]\w*)\{\}$", vtxt)
+    if not m:
+        return False
+    variant = m.group(2)
+    from analysis.guards import _variants_for_discr
+    from analysis.sym import switch_alternatives
+    rb = facts.bodies.get(WS + "reader_task::{closure#0}")
+    if rb is None:
+        return False
+    rs = Sym(rb)
+    reads = [i for i, t in rb.calls() if t["callee"]["name"] == "next" and "StreamExt" in t["callee"]["path"]]
+    for x in sorted(rb.live_blocks()):
+        t = rb.term(x)
+        if t["k"] != "switch" or t.get("on_ty") == "bool":
+            continue
+        if not any(e[0] == "discr" and "spawn_off_reader" in render(e[1]) for e in switch_alternatives(rs, x)):
+            continue
+        vm = _variants_for_discr(rb, facts, t, x) or {}
+        if variant not in vm.values():
+            continue
+        listed = {vm.get(v, str(v)): tb for v, tb in t["targets"]}
+        tb = listed.get(variant, t.get("otherwise"))
+        others = [b2 for n, b2 in listed.items() if n != variant]
+        return tb is not None and any(r in rb.reachable((tb,)) for r in reads) and all(not any(r in rb.reachable((o,)) for r in reads) for o in others)
+    return False
+
+
 def run(facts, R):
     b = facts.body(SOR)
     s = Sym(b)
@@ -192,7 +222,7 @@ def run(facts, R):
     rows = value_rows(b, s, facts, 0)
     for g, v in rows:
         if any("is Err" in x and ("try_acquire_owned" in x or (mapped_acq and "Option::map" in x and "as Some).0" in x)) for x in g) and any(x.endswith("notify is True") for x in g):
-            R.check(v == "1", "saturation-branch", b.path, "saturated notify is dropped, reader continues", "saturated notify returns %s" % v, b.span, "returns true (keep reading)")
+            R.check(v == "1" or _keeps_reading(facts, v), "saturation-branch", b.path, "saturated notify is dropped, reader continues", "saturated notify returns %s" % v, b.span, "returns true (keep reading)")
     # semaphore: Semaphore::new(limit) once per connection
     hc = facts.body(WS + "handle_connection_with_config::{closure#0}")
     sems = []
@@ -204,10 +234,16 @@ def run(facts, R):
     R.check(ok, "permit-before-spawn", "<crate>", "one Semaphore::new per connection", "Semaphore::new sites: %s" % [x[0].path for x in sems], None, "inside handle_connection_with_config")
     if ok:
         cb, ci, ct = sems[0]
-        R.check(render_n(Sym(cb).op(ct["args"][0])) == "arg2", "permit-before-spawn", cb.path, "sized by the configured limit", "Semaphore::new(%s)" % render_n(Sym(cb).op(ct["args"][0])), ct.get("span"))
+        sz = render_n(Sym(cb).op(ct["args"][0]))
         hs = Sym(hc)
-        mp = [(i, t) for i, t in hc.calls() if t["callee"]["name"] == "map" and "offreader_limit" in render_n(hs.op(t["args"][0]))]
-        R.check(len(mp) == 1 and not in_cycle(hc, mp[0][0]), "permit-before-spawn", hc.path, "created once, outside loops, from config.offreader_limit", "offreader_limit.map sites: %d" % len(mp), hc.span)
+        if cb is hc:
+            # built in the connection function itself: `match config.offreader_limit { Some(n) => Some(Arc::new(Semaphore::new(n))), None => None }`
+            R.check(sz.endswith("config.offreader_limit as Some).0"), "permit-before-spawn", cb.path, "sized by the configured limit", "Semaphore::new(%s)" % sz, ct.get("span"))
+            R.check(not in_cycle(hc, ci), "permit-before-spawn", hc.path, "created once, outside loops, from config.offreader_limit", "Semaphore::new sits in a loop", hc.span)
+        else:
+            R.check(sz == "arg2", "permit-before-spawn", cb.path, "sized by the configured limit", "Semaphore::new(%s)" % sz, ct.get("span"))
+            mp = [(i, t) for i, t in hc.calls() if t["callee"]["name"] == "map" and "offreader_limit" in render_n(hs.op(t["args"][0]))]
+            R.check(len(mp) == 1 and not in_cycle(hc, mp[0][0]), "permit-before-spawn", hc.path, "created once, outside loops, from config.offreader_limit", "offreader_limit.map sites: %d" % len(mp), hc.span)
 
     # ---------------- blocking-marker-in-raw: the off-reader marker wraps the leaf handler that is stored as the route's
     # `raw`, so that rebuilding the dispatched slot from `raw` (middleware registered later) keeps the route off-reader
